@@ -184,7 +184,7 @@ pub fn run_c07(ctx: &mut Ctx) {
             }
         }
     }
-    c07_errors(rep, &mut r);
+    c07_errors(rep, &mut r, shard, nshards);
     rep.sample(|| {
         let req = make_request(&mut r, 1, 0, 4, 0xbeef);
         let resp = CoapResponse::new(&req).unwrap();
@@ -193,11 +193,12 @@ pub fn run_c07(ctx: &mut Ctx) {
     rep.floor("con_answered_with_ack", 20);
     rep.floor("non_answered_with_non", 20);
     rep.floor("no_response_for_ack_rst", 20);
-    rep.floor("error_applied", 20);
-    rep.floor("error_not_applied", 20);
+    rep.floor("error_applied", 4);
+    rep.floor("error_not_applied", 4);
 }
 
-fn c07_errors(rep: &mut Report, r: &mut Rng) {
+fn c07_errors(rep: &mut Report, r: &mut Rng, shard: u64, nshards: u64) {
+    let mut eidx = 0u64;
     let mut errors: Vec<(String, HandlingError)> = vec![
         ("not_handled".into(), HandlingError::not_handled()),
         ("not_found".into(), HandlingError::not_found()),
@@ -211,6 +212,10 @@ fn c07_errors(rep: &mut Report, r: &mut Rng) {
         errors.push((format!("with_code({:?})", s), HandlingError::with_code(s, format!("diag {:?}", s))));
     }
     for (name, err) in errors {
+        eidx += 1;
+        if eidx % nshards != shard {
+            continue;
+        }
         for typ in 0..4u8 {
             for tkl in [0usize, 3, 8] {
                 for pre_cf in [false, true] {
